@@ -1054,7 +1054,7 @@ func rangeParametersRule(P *Program, R *Report) {
 		if fn.Pkg != sp || fn.Blocks == nil || strings.HasSuffix(fn.Name(), "_test") {
 			continue
 		}
-		if fn.Name() == "newPedersenRangeProofStructure" {
+		if FuncKey(fn) == "keyproof.newPedersenRangeProofStructure" {
 			continue // forwards its own parameters
 		}
 		lits := map[ssa.Value]map[string]ssa.Value{}
